@@ -175,7 +175,7 @@ package floatingip
 //@ pure setIs(set sets.String, picked []string, n int) bool = set != nil && fresh(set) && (forall j int :: 0 <= j && j < n ==> picked[j] in set) && (forall m sets.String :: allocated(m) ==> dom(m) == old(dom(m)))
 //@ pure phase1(ci *crdIpam, picked []string, set sets.String, n int, ipranges [][]nets.IPRange, subnet string) bool = inv(ci) && synced(ci) && tablesSame(ci) && storeUnchanged() && faults == old(faults) && ciFieldsSame(ci) && allEntriesSame() && len(picked) == n && pickedOK(ci, picked, n, ipranges, subnet) && setIs(set, picked, n)
 
-//@ func [C08] (*crdIpam).AllocateInSubnetsAndIPRange
+//@ func [C01,C05,C06,C08,C09] (*crdIpam).AllocateInSubnetsAndIPRange
 //@   let sub = netstr(nodeSubnet)
 //@   requires inv(ci) && synced(ci) && held[ptr(ci.cacheLock)] == 0
 //@   requires 0 <= attr.Policy && attr.Policy < 65536
@@ -221,3 +221,23 @@ package floatingip
 //@   loop 3 invariant forall k string :: (forall j int :: 0 <= j && j < idx ==> allocatedIPStrs[j] != k) ==> ((k in ci.allocatedFIPs) == old(k in ci.allocatedFIPs)) && ((k in ci.unallocatedFIPs) == old(k in ci.unallocatedFIPs)) && ci.allocatedFIPs[k] == old(ci.allocatedFIPs[k]) && ci.unallocatedFIPs[k] == old(ci.unallocatedFIPs[k])
 //@   loop 3 invariant ciFieldsSame(ci)
 //@   loop 3 invariant forall m map[string]*FloatingIP :: allocated(m) && m != ci.allocatedFIPs && m != ci.unallocatedFIPs ==> dom(m) == old(dom(m)) && vals(m) == old(vals(m))
+
+// ---- ConfigurePool (reload): what it establishes about the two tables ----
+// The store list, sort.Sort and JSON attribute decoding are not modelled (unknown calls: everything
+// they could touch is havoced); what is proved is what the final table construction guarantees for
+// EVERY store content and configuration: the new tables are disjoint and every free entry is blank
+// and filed under its own IP string.
+//@ func [C01,C05,C06,C09] (*crdIpam).ConfigurePool
+//@   requires ci.cacheLock != nil && held[ptr(ci.cacheLock)] == 0
+//@   requires forall i int :: 0 <= i && i < len(floatIPs) ==> floatIPs[i] != nil
+//@   requires forall p *FloatingIPPool, r int {p.IPRanges[r]} :: allocated(p) && 0 <= r && r < len(p.IPRanges) ==> nets.wfRange(p.IPRanges[r])
+//@   ensures [C01,C09,C06:reload-tables-disjoint] result == nil ==> ci.allocatedFIPs != nil && ci.unallocatedFIPs != nil && ci.allocatedFIPs != ci.unallocatedFIPs && forall k string :: !(k in ci.allocatedFIPs && k in ci.unallocatedFIPs)
+//@   ensures [C01,C09:reload-free-entries-blank] result == nil ==> forall k string :: k in ci.unallocatedFIPs ==> ci.unallocatedFIPs[k] != nil && freeEntry(ci.unallocatedFIPs[k]) && ci.unallocatedFIPs[k].pool != nil && ipstr(ci.unallocatedFIPs[k].IP) == k
+//@   modifies all
+//@ pure freeTbl(ci *crdIpam, m map[string]*FloatingIP) bool = m != nil && fresh(m) && m != ci.allocatedFIPs && (forall k string :: k in m ==> !(k in ci.allocatedFIPs)) && (forall k string :: k in m ==> m[k] != nil && fresh(m[k])) && (forall k string :: k in m ==> freeEntry(m[k])) && (forall k string :: k in m ==> m[k].pool != nil) && (forall k string :: k in m ==> ipstr(m[k].IP) == k)
+//@   loop 5,call:walkIPRanges#0/0,call:walkIPRanges#0/1 invariant freeTbl(ci, tmpCacheUnallocated) && ci.allocatedFIPs != nil && held[ptr(ci.cacheLock)] == 2
+//@   loop call:walkIPRanges#0/0,call:walkIPRanges#0/1 invariant fipConf != nil
+//@   loop 0,2,3,4,5 invariant forall i int :: 0 <= i && i < len(floatIPs) ==> floatIPs[i] != nil && allocated(floatIPs[i])
+//@   loop 0,1,2,3,4,5,call:walkIPRanges#0/0,call:walkIPRanges#0/1 invariant forall p *FloatingIPPool, r int {p.IPRanges[r]} :: allocated(p) && 0 <= r && r < len(p.IPRanges) ==> nets.wfRange(p.IPRanges[r])
+//@ func [C05,C09] (*crdIpam).listFloatingIPs trusted noeffect
+//@   ensures result1 == nil ==> result0 != nil
